@@ -67,7 +67,7 @@ class ReproCheck:
                   "scheduler_lookahead": 0, "drop_skipped_tasks": False}
             if sched != "ILP":
                 fl.update(scheduler_time_discretization=1, scheduler_plan_ahead=12)
-            w = worldgen.gen_world(seed, idx, "clockwork", small_burst=True, flags=fl)
+            w = worldgen.gen_world(seed, idx, "clockwork", small_burst=True, burst_equal=True, flags=fl)
             w["meta"]["source"] = "batching_planner"
             return w
         if idx % 16 == 2:
@@ -104,7 +104,10 @@ class ReproCheck:
             tool_limit = False
             din = os.path.join(workdir, f"w{idx}_in")
             argv0, paths0 = worldgen.write_world(world, din)
-            for run, hs in enumerate(("1", "2")):
+            # where the order of a small set decides (ties between a few models, candidate batches of a few requests) two hash
+            # salts agree by chance half of the time: four processes there
+            seeds = ("1", "2", "3", "4") if world["meta"]["source"] in ("clockwork_tied", "batching_planner") else ("1", "2")
+            for run, hs in enumerate(seeds):
                 d = os.path.join(workdir, f"w{idx}_{run}")
                 os.makedirs(d, exist_ok=True)
                 argv = [a for a in argv0 if not a.startswith("--log_file_name") and not a.startswith("--log_dir")]
@@ -128,8 +131,9 @@ class ReproCheck:
             res = {"index": idx, "hash": world["hash"], "source": world["meta"]["source"],
                    "scheduler": world["flags"]["scheduler"], "errors": errs, "viol": [], "tool_limit": tool_limit,
                    "ntypes": len({r["name"].split(":")[0] for p in world["cluster"] for w in p["workers"] for r in w["resources"]})}
-            if len(rows) == 2:
-                a, b = rows
+            if len(rows) == len(seeds):
+                a = rows[0]
+                b = next((r_ for r_ in rows[1:] if r_ != a), rows[1])
                 res["rows"] = len(a)
                 if a != b:
                     first = next((i for i, (x, y) in enumerate(zip(a, b)) if x != y), min(len(a), len(b)))
@@ -139,13 +143,13 @@ class ReproCheck:
                     same_multiset = sorted(a) == sorted(b)
                     res["viol"].append({
                         "kind": "trace_differs",
-                        "detail": f"first difference at row {first}: PYTHONHASHSEED=1 -> {ra!r} ; =2 -> {rb!r} "
+                        "detail": f"first difference at row {first}: PYTHONHASHSEED=1 -> {ra!r} ; another salt -> {rb!r} "
                                   f"({'same rows in another order' if same_multiset else 'different rows'}); source={res['source']}",
                         "case": {"seed": spec["seed"], "index": idx}, "case_id": str(idx),
                         "facts": {"first_row_type": kind_row, "same_multiset": same_multiset, "source": res["source"]}})
                 if idx % 8 == 0:
                     res["sample"] = {"flags": world["flags"], "source": res["source"], "rows": len(a), "tail": a[-3:]}
-            for d in (os.path.join(workdir, f"w{idx}_0"), os.path.join(workdir, f"w{idx}_1"), din):
+            for d in [os.path.join(workdir, f"w{idx}_{k}") for k in range(len(seeds))] + [din]:
                 shutil.rmtree(d, ignore_errors=True)
             out.append(res)
         return {"worlds": out}
